@@ -72,6 +72,19 @@ class Closure:
         return self.interp.call_closure(self, list(args), kwargs)
 
 
+class ModelledClass:
+    """A repository class whose constructor is replaced by a reference model; keeps the
+    ClassInfo so that isinstance / attribute lookups still see the class."""
+
+    def __init__(self, info, model):
+        self.info = info
+        self.model = model
+        self.name = info.name
+
+    def __call__(self, *a, **k):
+        return self.model(*a, **k)
+
+
 class BoundMethod:
     def __init__(self, interp, fi, self_obj):
         self.interp = interp
@@ -412,7 +425,7 @@ class Interp:
         f = _BINOPS.get(op)
         if f is None:
             raise Unsupported(f"operator {op.__name__}")
-        if op is ast.BitOr and (isinstance(a, (ClassInfo, TypeUnion)) or a in _PYTYPES or isinstance(b, (ClassInfo, TypeUnion))):
+        if op is ast.BitOr and (isinstance(a, (ClassInfo, TypeUnion, ModelledClass)) or (callable(a) and a in _PYTYPES) or isinstance(b, (ClassInfo, TypeUnion, ModelledClass))):
             la = list(a) if isinstance(a, TypeUnion) else [a]
             lb = list(b) if isinstance(b, TypeUnion) else [b]
             return TypeUnion(la + lb)
@@ -478,9 +491,10 @@ class Interp:
             return Closure(r.node, Env(), r.module, self, cls=r.cls, name=key)
         if isinstance(r, ClassInfo):
             if r.name in self.class_models:
-                return self.class_models[r.name]
+                cmod = self.class_models[r.name]
+                return cmod if isinstance(cmod, ClassInfo) else ModelledClass(r, cmod)
             if r.name in self.overrides:
-                return self.overrides[r.name]
+                return ModelledClass(r, self.overrides[r.name])
             return r
         if isinstance(r, Module):
             return r
@@ -542,6 +556,8 @@ class Interp:
             if r is None:
                 raise Unsupported(f"{obj.name}.{attr} not found")
             return self.entity_value(r, obj, attr)
+        if isinstance(obj, ModelledClass):
+            obj = obj.info
         if isinstance(obj, ClassInfo):
             r = self.prog.lookup(obj, attr)
             if isinstance(r, FuncInfo):
@@ -663,6 +679,10 @@ class Interp:
         for op, rhs in zip(e.ops, e.comparators):
             right = self.eval(rhs, env, mod)
             r = self.compare(type(op), left, right, e)
+            if not isinstance(r, bool):
+                if len(e.ops) == 1:
+                    return r
+                raise Unsupported("chained comparison on symbolic values")
             if not r:
                 return False
             left = right
@@ -755,6 +775,8 @@ class Interp:
     def isinstance_model(self, x, cls, node=None):
         if isinstance(cls, (tuple, list)):
             return any(self.isinstance_model(x, c, node) for c in cls)
+        if isinstance(cls, ModelledClass):
+            cls = cls.info
         if self.isinstance_hook is not None:
             r = self.isinstance_hook(x, cls)
             if r is not NotImplemented:
@@ -793,6 +815,12 @@ class Interp:
             return self.call_closure(f, args, kwargs)
         if isinstance(f, BoundMethod):
             return f(*args, **kwargs)
+        if isinstance(f, Obj) and "__call__" in f.attrs:
+            return self.call(f.attrs["__call__"], args, kwargs, node, mod)
+        if isinstance(f, T) and getattr(self, "call_value", None) is not None:
+            return self.call_value(f, args, kwargs)
+        if isinstance(f, ModelledClass):
+            return self.call(f.model, args, kwargs, node, mod)
         if isinstance(f, ClassInfo):
             if f.name in self.class_models:
                 return self.call(self.class_models[f.name], args, kwargs, node, mod)
